@@ -152,7 +152,7 @@ def main():
             "level_claimed": {"category": "model_checking", "text": text, "design_ref": ref},
             "level_note": note,
         })
-    na = [{"property_id": k, "reason": v} for k, v in sorted({**NOT_APPLICABLE, **PENDING}.items()) if k not in CLAIMED]
+    na = [{"property_id": k, "reason": v} for k, v in sorted({**PENDING, **NOT_APPLICABLE}.items()) if k not in CLAIMED]
     m = {
         "version": 1,
         "setup_cmd": "bin/setup.sh",
